@@ -6,6 +6,7 @@ import ast
 from ..algebra import NC, Poly, ToNC
 from ..report import AnalysisError
 from ..amatch import AM
+from ..flow import expand
 from ..srcmodel import norm
 from ..state import self_attr
 
@@ -97,39 +98,49 @@ def rule_b(ctx, side):
              "cannot increase)")
     m = ctx.model
     spec = {
-        "ColorBalance": dict(x0="self.balance_scaling.flatten()", unpack=["A = flat_balance.reshape((3, 3))"], store={"balance_scaling": "opt_result.x.reshape((3, 3))"}, b=False),
-        "WhiteBalance": dict(x0="np.diag(self.balance_scaling)", unpack=["A = np.diag(flat_balance)"], store={"balance_scaling": "np.diag(opt_result.x)"}, b=False),
-        "AffineBalance": dict(x0="np.concatenate((self.balance_scaling.flatten(), self.balance_translation))",
-                              unpack=["A = flat_balance[:9].reshape((3, 3))", "b = flat_balance[9:12]"],
-                              store={"balance_scaling": "opt_result.x[:9].reshape((3, 3))", "balance_translation": "opt_result.x[9:12]"}, b=True),
+        "ColorBalance": dict(x0="self.balance_scaling.flatten()", A="P.reshape((3, 3))", b=None, store={"balance_scaling": "OPT.x.reshape((3, 3))"}),
+        "WhiteBalance": dict(x0="np.diag(self.balance_scaling)", A="np.diag(P)", b=None, store={"balance_scaling": "np.diag(OPT.x)"}),
+        "AffineBalance": dict(x0="np.concatenate((self.balance_scaling.flatten(), self.balance_translation))", A="P[:9].reshape((3, 3))", b="P[9:12]",
+                              store={"balance_scaling": "OPT.x[:9].reshape((3, 3))", "balance_translation": "OPT.x[9:12]"}),
     }
     for cname, sp in spec.items():
         f = m.method(m.cls(MOD, cname), "find_balance")
         ctx.instance(R)
-        src = f.params[1]
+        src, dst = f.params[1], f.params[2]
         obj = [n for n in ast.walk(f.node) if isinstance(n, ast.FunctionDef) and n is not f.node]
         ctx.need(len(obj) == 1, f"{f.qname}: objective function not found")
         o = obj[0]
         fp = o.args.args[0].arg
-        mins = [s_ for s_ in ast.walk(f.node) if isinstance(s_, ast.Assign) and isinstance(s_.value, ast.Call) and norm(s_.value.func) == "scipy.optimize.minimize" and isinstance(s_.targets[0], ast.Name)]
-        ctx.need(len(mins) == 1, f"{f.qname}: scipy.optimize.minimize call not found")
-        call = mins[0].value
-        am = AM(f)
-        am.bind.update({"flat_balance": fp, "opt_result": mins[0].targets[0].id})
-        ctx.ob(R, f.qname, "minimize(objective, x0 = current balance)", norm(call.args[0]) == o.name and norm(call.args[1]) == sp["x0"], norm(call.args[1]), call)
-        un_ok = all(am.has(o, t) is not None for t in sp["unpack"])
-        ctx.ob(R, f.qname, "objective unpacks the parameter vector with the layout x0 was packed in", un_ok, str(am.show()), o)
-        want = f"{src} @ A" if side == "left" else f"A @ {src}"
-        if sp["b"]:
-            want += " + b"
-        ap_ok = un_ok and am.has(o, f"balanced = {want}") is not None
-        n_mm = sum(1 for x in ast.walk(o) if isinstance(x, ast.BinOp) and isinstance(x.op, ast.MatMult))
-        ctx.ob(R, f.qname, "objective applies the candidate on the same operand side as apply_balance", ap_ok and n_mm == 1, str(am.show()), o)
-        n_ret = sum(1 for r in ast.walk(o) if isinstance(r, ast.Return))
-        ctx.ob(R, f.qname, "objective is the squared swatch residual", ap_ok and n_ret == 1 and am.has(o, f"return np.sum((balanced - {f.params[2]}) ** 2)") is not None, "", o)
-        st = {self_attr(s.targets[0]): norm(s.value) for s in f.node.body if isinstance(s, ast.Assign) and self_attr(s.targets[0])}
-        want_st = {k: v.replace("opt_result", mins[0].targets[0].id) for k, v in sp["store"].items()}
-        ctx.ob(R, f.qname, "result is unpacked with the same layout", st == want_st, str(st), f.node)
+        mins = [c for c in ast.walk(f.node) if isinstance(c, ast.Call) and norm(c.func) == "scipy.optimize.minimize"]
+        ctx.need(len(mins) == 1 and len(mins[0].args) >= 2, f"{f.qname}: scipy.optimize.minimize call not found")
+        call = mins[0]
+        ctx.ob(R, f.qname, "minimize(objective, x0 = current balance)", norm(call.args[0]) == o.name and norm(expand(f.node, call.args[1])) == sp["x0"], norm(call.args[1]), call)
+        # the objective, with its once-bound locals replaced by their definitions: np.sum((APPLIED - dst) ** 2)
+        orets = [r.value for r in ast.walk(o) if isinstance(r, ast.Return) and r.value is not None]
+        ctx.need(len(orets) == 1, f"{f.qname}: objective has no single return")
+        E = expand(o, orets[0])
+        applied = None
+        if isinstance(E, ast.Call) and norm(E.func) == "np.sum" and len(E.args) == 1 and isinstance(E.args[0], ast.BinOp) and isinstance(E.args[0].op, ast.Pow) and norm(E.args[0].right) == "2" \
+                and isinstance(E.args[0].left, ast.BinOp) and isinstance(E.args[0].left.op, ast.Sub) and norm(E.args[0].left.right) == dst:
+            applied = E.args[0].left.left
+        ctx.ob(R, f.qname, "objective is the squared swatch residual", applied is not None, norm(E)[:120], o)
+        mm, tr = applied, None
+        if applied is not None and sp["b"] and isinstance(applied, ast.BinOp) and isinstance(applied.op, ast.Add):
+            mm, tr = applied.left, applied.right
+        cand = None
+        side_ok = False
+        if isinstance(mm, ast.BinOp) and isinstance(mm.op, ast.MatMult):
+            l, r = norm(mm.left), norm(mm.right)
+            if side == "left":
+                side_ok, cand = l == src, r
+            else:
+                side_ok, cand = r == src, l
+        un_ok = cand == sp["A"].replace("P", fp) and (sp["b"] is None or (tr is not None and norm(tr) == sp["b"].replace("P", fp))) and (sp["b"] is not None or tr is None)
+        ctx.ob(R, f.qname, "objective unpacks the parameter vector with the layout x0 was packed in", un_ok, norm(applied)[:120] if applied is not None else "", o)
+        ctx.ob(R, f.qname, "objective applies the candidate on the same operand side as apply_balance", side_ok, norm(applied)[:120] if applied is not None else "", o)
+        opt_txt = norm(expand(f.node, call))
+        st = {self_attr(s_.targets[0]): norm(expand(f.node, s_.value)).replace(opt_txt, "OPT") for s_ in f.node.body if isinstance(s_, ast.Assign) and self_attr(s_.targets[0])}
+        ctx.ob(R, f.qname, "result is unpacked with the same layout", st == sp["store"], str(st)[:200], f.node)
     ctx.floor(R, 3)
 
 
